@@ -110,8 +110,10 @@ class ChainNode(Entity):
         self.prev_node: ChainNode | None = None
         self.head_node: ChainNode | None = None
 
-        # CRAQ: track keys with uncommitted writes
+        # CRAQ: track keys with uncommitted writes, and which writes (seq) those are:
+        # a key stays dirty until every write to it seen here has been committed
         self._dirty_keys: set[str] = set()
+        self._uncommitted: dict[str, set[int]] = {}
 
         # Pending write futures (HEAD: seq -> SimFuture)
         self._pending_writes: dict[int, SimFuture] = {}
@@ -212,7 +214,7 @@ class ChainNode(Entity):
 
         # Mark dirty for CRAQ
         if self._craq_enabled:
-            self._dirty_keys.add(key)
+            self._mark_dirty(key, seq)
 
         if self.next_node is not None:
             # Create ack future
@@ -235,11 +237,11 @@ class ChainNode(Entity):
             # Clean up
             self._pending_writes.pop(seq, None)
             if self._craq_enabled:
-                self._dirty_keys.discard(key)
+                self._mark_clean(key, seq)
         else:
             # Single-node chain (HEAD is also TAIL)
             if self._craq_enabled:
-                self._dirty_keys.discard(key)
+                self._mark_clean(key, seq)
 
         if reply_future is not None:
             reply_future.resolve({"status": "ok", "seq": seq})
@@ -267,7 +269,7 @@ class ChainNode(Entity):
             yield from self._store.put(key, value)
 
         if self._craq_enabled:
-            self._dirty_keys.add(key)
+            self._mark_dirty(key, seq)
 
         if self._role == ChainNodeRole.TAIL:
             # Send ack back to head
@@ -284,7 +286,7 @@ class ChainNode(Entity):
 
             # CRAQ: key is now clean, notify chain
             if self._craq_enabled:
-                self._dirty_keys.discard(key)
+                self._mark_clean(key, seq)
                 # Notify upstream nodes that key is committed
                 events = self._build_commit_notifications(key, seq)
                 if events:
@@ -317,7 +319,22 @@ class ChainNode(Entity):
         metadata = event.context.get("metadata", {})
         key = metadata.get("key")
         if key and self._craq_enabled:
-            self._dirty_keys.discard(key)
+            self._mark_clean(key, metadata.get("seq", 0))
+
+    def _mark_dirty(self, key: str, seq: int) -> None:
+        """CRAQ: write ``seq`` to ``key`` has been applied here but is not committed yet."""
+        self._uncommitted.setdefault(key, set()).add(seq)
+        self._dirty_keys.add(key)
+
+    def _mark_clean(self, key: str, seq: int) -> None:
+        """CRAQ: write ``seq`` is committed; the key is clean once no other write to it is pending."""
+        pending = self._uncommitted.get(key)
+        if pending is not None:
+            pending.discard(seq)
+            if pending:
+                return
+            del self._uncommitted[key]
+        self._dirty_keys.discard(key)
 
     def _handle_read(
         self,
